@@ -70,6 +70,8 @@ def handwritten(did):
     # a full byte: 256 variants on repr(u8), every value taken (some disabled); more variants than a byte on repr(u16)
     mk("u8", [("V%d" % k, 0, None, k % 37 == 5) for k in range(256)])
     mk("u16", [("W%d" % k, 0, None, k % 41 == 7) for k in range(300)])
+    # a signed byte used from -100 upwards: 200 variants, positions beyond 127
+    mk("i8", [("S%d" % k, -100 if k == 0 else 0, "-100" if k == 0 else None, k % 53 == 9) for k in range(200)])
     return out
 
 
